@@ -170,13 +170,15 @@ def rand_bytes(rng, n, nul=False):
 def gen_edit_ops(rng, maxlen=6):
     ops = []
     for _ in range(rng.randint(1, maxlen)):
-        k = rng.choice("DDARPTSSCX")
+        k = rng.choice("DDARYYPTSSCX")
         if k == "D":
             ops.append("D%%%d" % rng.randint(1, 500))
         elif k == "A":
             ops.append("AT0:%s:" % ".".join("%%%d" % rng.randint(0, 50) for _ in range(rng.randint(0, 2))))
         elif k == "R":
             ops.append("R%%%d=T0::" % rng.randint(1, 500))
+        elif k == "Y":
+            ops.append("Y%%%d" % rng.randint(0, 500))
         elif k == "P":
             ops.append("P0")
         elif k == "T":
@@ -599,6 +601,42 @@ def _run(rep, cov, tier, rng, replay, impl_bin, model_bin, samples, files, outdi
                         else:
                             rep.violation("NiString::Read does not read back what NiString::Write wrote", rpl)
                     nontriv.add(c)
+    # ---- a generated, populated instance of EVERY registered block type inside a minimal file: the size table
+    # written by Save must tile the file (independent reader), for the versions that have a size table
+    gen_checked = 0
+    if not replay or any(c.startswith("fileblk") for c in allc):
+        import blocks_engine as be
+        info = vlib.gen_ir(("Cur",))["Cur"]
+        plain = vlib.build_oracle("plain")
+        gdir = os.path.join(outdir, "gen")
+        os.makedirs(gdir, exist_ok=True)
+        if replay:
+            gcases = [c.split(" out=")[0] for c in allc if c.startswith("fileblk")]
+        else:
+            gvers = ["FO3", "SSE", "FO76", "SF173"] if tier == "quick" else ["FO3", "SK", "SSE", "FO4", "FO4_132", "FO4_139", "FO76", "SF172", "SF173"]
+            gseed = rng.randrange(1, 1000)
+            gcases = ["fileblk type=%s ver=%s seed=%d" % (b, be.VERS[gv], gseed + k) for b in info["blocks"] for gv in gvers for k in range(1 if tier == "quick" else 3)]
+        gfull = ["%s out=%s" % (c, os.path.join(gdir, "g%d.nif" % i)) for i, c in enumerate(gcases)]
+        gres = be.par_run(plain, "blocks", gfull, timeout=180)
+        for i, (c, (_, l, crash)) in enumerate(zip(gcases, gres)):
+            pth = os.path.join(gdir, "g%d.nif" % i)
+            if crash is not None or l is None or not os.path.exists(pth):
+                continue            # crashes of the generator are C01/C16's business
+            b = open(pth, "rb").read()
+            os.remove(pth)
+            try:
+                t, hlen = wn.parse_header(b)
+            except Exception as e:  # noqa: BLE001
+                rep.violation("independent reader cannot parse the header of a file holding a generated block", {"case": c, "family": "blocks", "error": repr(e)})
+                continue
+            gen_checked += 1
+            evals += 1
+            nontriv.add(c)
+            if wn.walk(b) is None:
+                end = hlen + sum(t["sizes"])
+                rep.violation("written file contradicts its own header tables: the size table does not tile the file of a generated block (header %d + sizes %d = %d, file %d; block sizes %s)"
+                              % (hlen, sum(t["sizes"]), end, len(b), t["sizes"]), {"case": c, "family": "blocks", "sizes": t["sizes"], "file_len": len(b)})
+        dist["generated_block_files_walked"] = gen_checked
     for m in mism[:6]:
         rep.violation("correspondence container (Coq container model vs nifly / independent reader) no longer holds: " + m["what"],
                       dict(m, broken="correspondence:container", family=FAMILY), found_input=False)
